@@ -10,6 +10,8 @@
 package c16
 
 import (
+	"archive/zip"
+	"bytes"
 	"context"
 	"crypto/sha256"
 	"encoding/hex"
@@ -63,13 +65,23 @@ func pseudoRandom(n int, seed uint32) string {
 	return string(b)
 }
 
+func tinyZip(name, content string) string {
+	var buf bytes.Buffer
+	zw := zip.NewWriter(&buf)
+	w, _ := zw.CreateHeader(&zip.FileHeader{Name: name, Method: zip.Store})
+	_, _ = w.Write([]byte(content))
+	_ = zw.Close()
+	return buf.String()
+}
+
 var versions = func() []version {
 	var vs []version
 	for i := 0; i < 4; i++ {
 		vs = append(vs, version{
 			"a/x.txt":   fmt.Sprintf("version %d small file", i),
 			"a/b/y.bin": pseudoRandom(40000, uint32(i+1)), // incompressible: the package is several copy buffers long
-			"z.txt":     strings.Repeat(fmt.Sprintf("v%d;", i), 10),
+			// a member that is itself an archive: a version is installed as it was stored, archives inside it included
+			"z.zip": tinyZip(fmt.Sprintf("inner-%d.txt", i), strings.Repeat(fmt.Sprintf("v%d;", i), 10)),
 		})
 	}
 	return vs
